@@ -25,14 +25,14 @@ def rand_params(rng: random.Random, cls: str, small: bool = True) -> dict:
     if cls == "EDDM":
         a = rng.uniform(0.5, 1.0)
         return {"alpha": a, "beta": a * rng.uniform(0.5, 0.98), "level": rng.uniform(0.5, 3.0),
-                "min_num_misclassified_instances": rng.choice([0, 1, 2, 3, 5, 8])}
+                "min_num_misclassified_instances": rng.choice([0, 1, 2, 3, 5, 8, 8, 35, 50])}
     if cls == "ECDDWT":
         return {"lambda_": rng.choice([0.05, 0.1, 0.2, 0.35, 0.5, 1.0, rng.uniform(0.01, 1.0)]),
                 "average_run_length": rng.choice([100, 400, 1000]), "warning_level": rng.uniform(0.05, 0.95),
                 "min_num_instances": mn}
     if cls in ("HDDMA", "HDDMW"):
         ad = rng.choice([0.001, 0.01, 0.05, 0.2, rng.uniform(0.0005, 0.4)])
-        p = {"alpha_d": ad, "alpha_w": min(1.0, ad * rng.uniform(1.5, 6.0)), "two_sided_test": rng.random() < 0.5,
+        p = {"alpha_d": ad, "alpha_w": rng.choice([min(1.0, ad * rng.uniform(1.5, 6.0)), 1.0, 0.9]), "two_sided_test": rng.random() < 0.5,
              "min_num_instances": mn}
         if p["alpha_w"] <= ad:
             p["alpha_w"] = min(1.0, ad + 0.05)
@@ -68,14 +68,18 @@ def rand_params(rng: random.Random, cls: str, small: bool = True) -> dict:
 
 def bernoulli_stream(rng: random.Random, n: int) -> list[int]:
     """piecewise-stationary 0/1 stream with abrupt, gradual or recurring shifts, rises and drops"""
-    kind = rng.choice(["stationary", "abrupt", "gradual", "recurring", "blocks", "nearperfect", "nearworst"])
+    kind = rng.choice(["stationary", "abrupt", "gradual", "recurring", "blocks", "nearperfect", "nearworst", "hill", "hill"])
+    p2 = rng.choice([0.05, 0.3, 0.5, 0.7, 0.95])
+    cut = rng.randint(1, max(1, n - 1))
+    cut2 = rng.randint(cut, max(cut, n))
     p0 = rng.choice([0.02, 0.1, 0.2, 0.35, 0.5, 0.7, 0.9])
     p1 = rng.choice([0.02, 0.1, 0.3, 0.5, 0.8, 0.95])
-    cut = rng.randint(1, max(1, n - 1))
     out = []
     for t in range(n):
         if kind == "stationary":
             p = p0
+        elif kind == "hill":          # three levels: e.g. high, low, middle (one side at drift level while the other is at warning level)
+            p = p0 if t < cut else (p1 if t < cut2 else p2)
         elif kind == "abrupt":
             p = p0 if t < cut else p1
         elif kind == "gradual":
